@@ -1,4 +1,5 @@
 import TracklibVerif.Model.Filter
+set_option linter.unusedSectionVars false
 /-! Locality of `Filter.execute` (property C15): the value computed at index `i` is a function of the kernel
 and of the samples at distance at most `D` of `i` only. Nothing but the structure of the loops is used — no
 law of arithmetic — so the statements hold for every scalar type the model is instantiated at, `Float`
